@@ -75,3 +75,14 @@ Proof.
   intros H eg fg w Hin. unfold walks_ok in H. apply andb_true_iff in H. destruct H as [H _].
   rewrite forallb_forall in H. specialize (H _ Hin). cbn in H. apply list_walk_is_filter. exact H.
 Qed.
+
+Lemma filter_all {A} (p : A -> bool) l : (forall x, p x = true) -> filter p l = l.
+Proof. intros H. induction l as [|x l IH]; [reflexivity|]. cbn. now rewrite H, IH. Qed.
+
+(** extract_all writes exactly one file per entry of the default walk: named by the entry's listed name, holding what read() returns *)
+Theorem extract_all_writes_every_file {A B} w (names : key -> A) (rd : info -> B) : walk_ok false false w = true -> forall t, NoDup (map fst t) ->
+  extract_files w names rd t = map (fun e => (names (fst e), rd (snd e))) (flat_tree t).
+Proof.
+  intros Hw t Hnd. unfold extract_files. rewrite (list_walk_is_filter false false w Hw [] [] t Hnd).
+  rewrite filter_all; [reflexivity|]. intros [[[x d] n] i]. reflexivity.
+Qed.
